@@ -666,6 +666,10 @@ func runC14(p *Program, r *Report) {
 	checkCoverageGate(p, r)
 	checkOutputLayout(p, r, or, "R14e", "(*MapPollard).GetMissingPositions", 0, "")
 	checkHeldTargetsUntouched(p, r)
+	r.Rule("R14g", "SPARSE-LIST-CURSOR: the hashes supplied for the missing positions are consumed through their own cursor, advanced exactly where one is consumed, never indexed by the counter of the loop over all proof positions")
+	checkSparseCursor(p, r, "R14g")
+	r.Rule("R14h", "MISSING-DECIDED-BY-LOOKUP: every result of the missing-positions method for a non-empty request is reached through look-ups of the node store, never through a configuration shortcut")
+	checkMissingByLookup(p, r, "R14h")
 }
 
 // checkHeldTargetsUntouched (R14f): the stand-alone GetMissingPositions is
